@@ -401,6 +401,52 @@ def encodeAttrs (p : Profile) (twoByte : Bool) : List Attr → Nat → Out (Byte
       let (bs, tot) ← encodeAttrs p twoByte rest (addLens acc rs)
       pure (rs.flatMap (·.1) ++ bs, tot)
 
+/-! ### Flow Specification NLRI length (`flowspec.rs::write_nlri_len`, `Nlri::put_flowspec`) -/
+
+/-- `write_nlri_len`: one octet below 240, else `0xF0 | (len >> 8) as u8` and the low octet (RFC 8955 §4.1) -/
+def flowNlriLen (n : Nat) : Bytes :=
+  if n < 240 then [n] else [Nat.lor 240 (n / 256 % 256), n % 256]
+
+/-- `Nlri::put_flowspec`: the rule (length field + body) is written only if the body fits the 12-bit length -/
+def putFlowspec (body : Bytes) : Out Bytes :=
+  let one := flowNlriLen body.length ++ body
+  if one.length > 2 + 4095 then .err else .ok one
+
+/-! ### UTF-8 (`String` values of the FQDN capability) -/
+
+/-- decoder state: continuation octets still expected, and the range allowed for the next one -/
+structure U8St where
+  need : Nat
+  lo : Nat
+  hi : Nat
+  deriving DecidableEq, Repr
+
+/-- one octet of the well-formed UTF-8 table (RFC 3629 §4, Unicode Table 3-7) -/
+def utf8Step (s : U8St) (b : Nat) : Option U8St :=
+  if s.need = 0 then
+    if b < 128 then some ⟨0, 128, 191⟩
+    else if 194 ≤ b ∧ b ≤ 223 then some ⟨1, 128, 191⟩
+    else if b = 224 then some ⟨2, 160, 191⟩
+    else if (225 ≤ b ∧ b ≤ 236) ∨ b = 238 ∨ b = 239 then some ⟨2, 128, 191⟩
+    else if b = 237 then some ⟨2, 128, 159⟩
+    else if b = 240 then some ⟨3, 144, 191⟩
+    else if 241 ≤ b ∧ b ≤ 243 then some ⟨3, 128, 191⟩
+    else if b = 244 then some ⟨3, 128, 143⟩
+    else none
+  else if s.lo ≤ b ∧ b ≤ s.hi then some ⟨s.need - 1, 128, 191⟩
+  else none
+
+def utf8Run : Option U8St → Bytes → Option U8St
+  | s, [] => s
+  | none, _ => none
+  | some s, b :: bs => utf8Run (utf8Step s b) bs
+
+/-- `String::from_utf8(b).is_ok()` -/
+def utf8Valid (b : Bytes) : Bool :=
+  match utf8Run (some ⟨0, 128, 191⟩) b with
+  | some s => s.need == 0
+  | none => false
+
 /-! ### NLRI -/
 
 def ceil8 (n : Nat) : Nat := (n + 7) / 8
